@@ -1,5 +1,5 @@
 From Coq Require Import String List NArith.
-From JS Require Import Base.Wire Extract.RunOMap Extract.RunNum Extract.RunGuess Extract.RunJson Extract.RunRegex Extract.RunDiag.
+From JS Require Import Base.Wire Extract.RunOMap Extract.RunNum Extract.RunGuess Extract.RunJson Extract.RunRegex Extract.RunDiag Extract.RunRec.
 Import ListNotations.
 
 (* one case line -> one result line; the first token names the model *)
@@ -13,6 +13,7 @@ Definition dispatch (line : bytes) : bytes :=
     else if beqb cmd B"json" then run_json args
     else if beqb cmd B"regex" then run_regex args
     else if beqb cmd B"linecol" then run_linecol args
+    else if beqb cmd B"rec" then run_rec args
     else bad_case
   | [] => bad_case
   end.
